@@ -310,6 +310,10 @@ PULLED = {("Reservoir", "FWTW"), ("FWTW", "Distribution"), ("Distribution", "Dem
           ("UnlimitedDistribution", "Demand"), ("Distribution", "ResidentialDemand"), ("UnlimitedDistribution", "ResidentialDemand")}
 
 
+PULLERS = ("Reservoir", "RiverReservoir", "FWTW", "Distribution", "UnlimitedDistribution", "Demand", "ResidentialDemand",
+           "NonResidentialDemand")
+
+
 def mix_arcs(g, r, p):
     """give some arcs another class: links that only carry pushes become travel-time arcs (QueueArc / AltQueueArc, 0-2
     timesteps), decaying arcs, sewer / weir arcs or push-only arcs; links that only carry pulls become pull-only arcs"""
@@ -335,6 +339,10 @@ def mix_arcs(g, r, p):
         if kind[a["in_port"]] in ("Reservoir", "FWTW", "Distribution", "UnlimitedDistribution", "Catchment"):
             continue        # pulled from / abstracted from: plain arcs
         t = r.choice(["QueueArc", "QueueArc", "AltQueueArc", "DecayArc", "SewerArc", "WeirArc", "PushArc"])
+        if kind[a["out_port"]] in PULLERS and t in ("AltQueueArc", "PushArc"):
+            # the node at the far end also pulls through its in-arcs (abstractions, supply): AltQueueArc does not support
+            # pulls (it queues the pulled water as if it had been pushed), a push-only arc would deny them
+            t = "QueueArc"
         if t == "DecayArc":
             # a decaying arc reads the temperature from the data of its in_port
             src = next(n for n in g.nodes if n["name"] == a["in_port"])
